@@ -214,6 +214,28 @@ ADDED = {
     'C19': 'The utilities of each sample cover exactly the positions of that sample.',
     'C20': 'No value of an obsolete keyword is dropped by the renaming wrapper.',
 }
+ADDED2 = {
+    'C01': 'Only set_id_manager and the constructor (and private helpers called from them alone) write the id manager of a node. A record is accused only when every field has an established role.',
+    'C02': 'Derivative buffers handed to the engine are fresh, of the rank the slot needs (shape resolved through locals).',
+    'C03': 'The list tested for duplicate names is the concatenation of all five kinds; a vector rebuilt by name does not read the vector it replaces.',
+    'C04': 'The divisor of the scaled likelihood and derivatives is the sample size (no other count of the database); a resample handed to the engine is restored on every exit (decided on the CFG pruned by the guards of the hand-over).',
+    'C07': 'Option tables: the key read is the key tested (18 instances); an algorithm that forwards bounds never resets them to None; the final evaluation is unscaled at the point the optimiser returned.',
+    'C08': 'Every local entering the correlation / standard errors of a family comes from the matrix of that family (reaching definitions); a formula is accused only when all its symbols are named quantities.',
+    'C09': 'The ranges of the individual map are cumulated in the order of the rows; every use of the map by the engine is preceded by a rebuild on every path (CFG).',
+    'C10': 'The only guards of generate_draws in IdManager.prepare are "needs draws" / "has a database"; the sources of randomness accused are exactly the uncontrolled ones (default_rng, RandomState, stdlib random, secrets, os.urandom).',
+    'C11': 'Antithetic halves stand beside each other (axis 1 / -1, hstack) and never below (axis 0, vstack, missing axis); column i of the table is the series of the i-th sorted name (C10 imported).',
+    'C12': 'The key-set test of LogLogit.audit is evaluated over all pairs of small key sets and accused only with a witness pair; the duplicate-name test covers all kinds (C03 imported).',
+    'C13': 'The flattening test compares all rows of an individual with the first.',
+    'C14': 'Every path through bioResults.__init__ passes a call of the method that assigns the statistics (CFG must-pass); the name a writer opens is the fresh name at the write site (reaching definitions).',
+    'C15': 'The iteration file is written only on paths where the gradient has neither a NaN nor an infinite entry (tests evaluated three-valued under both scenarios on the CFG).',
+    'C16': 'Delegations of MultipleExpression go to the selected member through any of its accessors; accused forms: a fixed member, super(), a missing override.',
+    'C17': 'Closed forms are accused only with a sample point where they differ; the first clipping width is resolved through reaching definitions to thresholds[1] - thresholds[0].',
+    'C18': 'The bisection cap exceeds the 1024 halvings of the largest bracket; every return of calculate_<part>_utility evaluates the table of its own part; the two index tables of Mdcev enumerate the same ordered source.',
+    'C19': 'The correction written on the chosen row is the value read under the membership test (reaching definitions); renamed variables of the second sample carry the MEV prefix.',
+    'C20': 'The wrapper keeps the name of the function it wraps (deprecated() dispatches on it); a verdict on the wrappers is positive only on a named fact (exception switch on, other arguments, no forwarding return).',
+}
+for _pid, _sentence in ADDED2.items():
+    ADDED[_pid] = (ADDED.get(_pid, '') + ' ' + _sentence).strip()
 for _pid, _sentence in ADDED.items():
     _t, _text, _ref = CLAIMED[_pid]
     if ' Not decided:' in _text:
